@@ -1,6 +1,6 @@
 """C09 - a topology operation that fails leaves the model unchanged."""
 from vf.registry import add
-from harness.topo_steps import mk, ALL_OPS, ENC
+from harness.topo_steps import mk, mk2, OPS2_FIRST, OPS2_SECOND, ALL_OPS, ENC
 for _k, _tiers in (('S4', ("quick", "thorough")), ('S3', ("thorough",)), ('S1', ("thorough",)), ('S0', ("thorough",))):
     for _op in ALL_OPS:
         if _k == 'S4' and _op == 'add_network_service':
@@ -9,3 +9,13 @@ for _k, _tiers in (('S4', ("quick", "thorough")), ('S3', ("thorough",)), ('S1', 
         add("c09/%s/%s" % (_k, _op), mk('C09', _k, _op, small=(_k == 'S4')), timeout=900, tiers=_tiers, encodes=ENC,
             bounds="skeleton %s, one %s with symbolic arguments (names/sites/types/interfaces by symbolic index incl. unused and duplicate ones, "
                    "unbounded int capacities, unbounded symbolic model string); if the call raises the canonical snapshot equals the pre-snapshot" % (_k, _op))
+
+
+# thorough: every ordered pair of steps (reduced argument pools) from skeleton S3
+for _o1 in OPS2_FIRST:
+    for _o2 in OPS2_SECOND:
+        if 'C09' == 'C08' and not (_o2.startswith('remove') or _o2.startswith('disconnect')):
+            continue
+        add("c09/S3/two_steps/%s+%s" % (_o1, _o2), mk2('C09', 'S3', _o1, _o2), timeout=900, tiers=("thorough",), encodes=ENC,
+            bounds="skeleton S3, two consecutive operations (%s then %s) with independent symbolic arguments from reduced pools; the property is "
+                   "checked after each step" % (_o1, _o2))
